@@ -69,32 +69,30 @@ End FAULTS.
        self.file_path.parent.mkdir(exist_ok=True, parents=True)
        with open(self.file_path, "wb") as fp:
            fp.write(zero header)
-           for minishard in key order:  minishard.close(); fp.write(its data);
-                                        del minishard.databytearray
+           for minishard in key order:  minishard.close(); fp.write(its data)
            for minishard in key order:  fp.write(its encoded index)
            fp.seek(0); fp.write(shard index)
        self.dirty = False
-   and of a clean shard: nothing.  A minishard whose buffer was deleted by an
-   earlier, failed close raises AttributeError when its data is iterated.
+       for minishard in key order:  del minishard.databytearray
+   and of a clean shard: nothing.  The write buffers are released only once
+   the shard file is complete, so a close that failed can be repeated (the
+   accessor itself does so at interpreter exit: atexit.register(self.close)).
 
    The payload is abstract (the byte strings are the shard writer's business,
    Shard/ShardFile.v, ShardSession.v; the harness hands in what the real
    writer produces): per shard the zero header, the data of each minishard in
    key order, their encoded indices, the final shard index.  The writer state
-   that matters here is, per shard, the dirty flag and the number of
-   minishards (a prefix in key order) whose buffer has been deleted - in
-   ShardSession.v this is [sh_dirty] and the [ws_dead] pairs of that shard.
+   that matters here is, per shard, the dirty flag.
    Every write is one primitive call; the file content after a write is given
    cumulatively.
    Scope: the data of a minishard is ONE write.  That is always so with the
    in-memory buffers (InMemByteArray yields itself once) and with the on-disk
    buffers while a minishard holds at most 4096 bytes (OnDiskByteArray yields
-   4096-byte reads); a larger on-disk minishard is several writes and its
-   buffer is deleted after the last of them - not modelled, the harness
-   reports a write sequence that is not of this shape. *)
+   4096-byte reads); a larger on-disk minishard is several writes - not
+   modelled, the harness reports a write sequence that is not of this shape. *)
 From NGS Require Import Val.
 
-Inductive cres := COk | CIOErr | CAttrErr.      (* close returned / OSError / AttributeError *)
+Inductive cres := COk | CIOErr.                  (* close returned / OSError *)
 
 Record shard_desc := {
   sd_dir : path;                 (* <base>/<scale key> *)
@@ -104,7 +102,6 @@ Record shard_desc := {
   sd_idx : list (list N);        (* per minishard, key order *)
   sd_hdr : list N                (* the shard index written last, over the zero header *)
 }.
-Record shst := { sh_dirty : bool; sh_dead : nat }.
 
 Definition sd_n (d : shard_desc) : nat := length (sd_data d).
 (* file content after the zero header and the first i data blocks *)
@@ -119,64 +116,54 @@ Variable B : Type.
 Variable plain : list N -> B.
 Notation prog := (prog B).
 
-(* the exception leaves the with-block: fp.close(), then it propagates (an
-   OSError raised by that close replaces it) *)
-Definition leave (f : path) (r : cres) (st : shst) : prog (cres * shst) :=
-  Do (CClose f) (fun rp => match rp with RErr _ => Ret (CIOErr, st) | _ => Ret (r, st) end).
+(* the exception leaves the with-block: fp.close(), then the OSError propagates
+   (or the one raised by that close) *)
+Definition leave (f : path) : prog cres := Do (CClose f) (fun _ => Ret CIOErr).
 
 (* index writes j, j+1, ... (fuel = number left), then the shard index, then close *)
-Fixpoint idx_writes (d : shard_desc) (j fuel : nat) : prog (cres * shst) :=
-  let dead := {| sh_dirty := true; sh_dead := sd_n d |} in
+Fixpoint idx_writes (d : shard_desc) (j fuel : nat) : prog cres :=
   match fuel with
   | O =>
       Do (CWrite (sd_file d) (plain (complete d))) (fun r =>
       match r with
-      | RErr _ => leave (sd_file d) CIOErr dead
-      | _ => Do (CClose (sd_file d)) (fun r =>
-             match r with
-             | RErr _ => Ret (CIOErr, dead)
-             | _ => Ret (COk, {| sh_dirty := false; sh_dead := sd_n d |})
-             end)
+      | RErr _ => leave (sd_file d)
+      | _ => Do (CClose (sd_file d)) (fun r => match r with RErr _ => Ret CIOErr | _ => Ret COk end)
       end)
   | S f =>
       Do (CWrite (sd_file d) (plain (cum_idx d (S j)))) (fun r =>
       match r with
-      | RErr _ => leave (sd_file d) CIOErr dead
+      | RErr _ => leave (sd_file d)
       | _ => idx_writes d (S j) f
       end)
   end.
 
-(* data writes i, i+1, ...; the buffer of minishard i is deleted after its write *)
-Fixpoint data_writes (d : shard_desc) (i fuel : nat) : prog (cres * shst) :=
+(* data writes i, i+1, ...; the buffers stay until the shard is complete *)
+Fixpoint data_writes (d : shard_desc) (i fuel : nat) : prog cres :=
   match fuel with
   | O => idx_writes d 0 (length (sd_idx d))
   | S f =>
       Do (CWrite (sd_file d) (plain (cum_data d (S i)))) (fun r =>
       match r with
-      | RErr _ => leave (sd_file d) CIOErr {| sh_dirty := true; sh_dead := i |}
+      | RErr _ => leave (sd_file d)
       | _ => data_writes d (S i) f
       end)
   end.
 
-(* Shard.close *)
-Definition shard_close_prog (d : shard_desc) (st : shst) : prog (cres * shst) :=
-  if negb (sh_dirty st) then Ret (COk, st) else
+(* Shard.close; the new dirty flag is false after COk and unchanged after CIOErr *)
+Definition shard_close_prog (d : shard_desc) (dirty : bool) : prog cres :=
+  if negb dirty then Ret COk else
   Do (CMakedirs (sd_dir d)) (fun r =>
   match r with
-  | RErr _ => Ret (CIOErr, st)
+  | RErr _ => Ret CIOErr
   | _ =>
     Do (COpen (sd_file d) MW) (fun r =>
     match r with
-    | RErr _ => Ret (CIOErr, st)
+    | RErr _ => Ret CIOErr
     | _ =>
       Do (CWrite (sd_file d) (plain (sd_zero d))) (fun r =>
       match r with
-      | RErr _ => leave (sd_file d) CIOErr st
-      | _ =>
-          match sh_dead st with
-          | O => data_writes d 0 (sd_n d)
-          | S _ => leave (sd_file d) CAttrErr st       (* iterating a deleted databytearray *)
-          end
+      | RErr _ => leave (sd_file d)
+      | _ => data_writes d 0 (sd_n d)
       end)
     end)
   end).
@@ -188,26 +175,55 @@ Fixpoint pbindp {A C} (p : prog A) (f : A -> prog C) : prog C :=
   end.
 
 (* ShardedScale.close / ShardedFileAccessor.close: all shards in insertion
-   order, the first exception aborts; [done] = states of the shards already
-   handled, reversed *)
-Fixpoint close_shards (l : list (shard_desc * shst)) (done : list shst) : prog (cres * list shst) :=
+   order, the first exception aborts; [done] = dirty flags of the shards
+   already handled, reversed *)
+Fixpoint close_shards (l : list (shard_desc * bool)) (done : list bool) : prog (cres * list bool) :=
   match l with
   | [] => Ret (COk, rev done)
   | (d, st) :: r =>
       pbindp (shard_close_prog d st) (fun x =>
-        match fst x with
-        | COk => close_shards r (snd x :: done)
-        | e => Ret (e, rev done ++ snd x :: map snd r)
+        match x with
+        | COk => close_shards r (false :: done)
+        | CIOErr => Ret (CIOErr, rev done ++ st :: map snd r)
         end)
   end.
 
-Definition close_prog (l : list (shard_desc * shst)) : prog (cres * list shst) := close_shards l [].
+Definition close_prog (l : list (shard_desc * bool)) : prog (cres * list bool) := close_shards l [].
 
 (* close(), then close() again on the state the first one left *)
-Definition retry_descs (l : list (shard_desc * shst)) (sts : list shst) : list (shard_desc * shst) :=
+Definition retry_descs (l : list (shard_desc * bool)) (sts : list bool) : list (shard_desc * bool) :=
   combine (map fst l) sts.
 
 End CLOSE.
+
+(* decidable forms of the hypotheses of the tree theorems about close
+   (StFaultsProofs: apart, NoDup of the shard files, good); the harness has them
+   evaluated on every case it generates *)
+Definition wfb (d : shard_desc) : bool :=
+  forallb (fun c => negb (is_dotdot c)) (sd_file d) &&
+  match rev (sd_file d) with c :: r => path_eqb (rev r) (sd_dir d) | [] => false end.
+Definition apartb (ds : list shard_desc) : bool :=
+  forallb wfb ds &&
+  forallb (fun x => forallb (fun y => negb (is_prefix (sd_file x) (sd_dir y))) ds) ds.
+Fixpoint nodupb (l : list path) : bool :=
+  match l with [] => true | p :: r => negb (existsb (path_eqb p) r) && nodupb r end.
+
+Section CLOSECHK.
+Variable B : Type.
+Definition closedb (t : fs B) : bool :=
+  forallb (fun e => match fst e with
+                    | [] => true
+                    | _ => match lookup B t (removelast (fst e)) with Some Dir => true | _ => false end
+                    end) t.
+Definition goodb (ds : list shard_desc) (t : fs B) : bool :=
+  closedb t &&
+  forallb (fun d =>
+    forallb (fun k => match lookup B t (firstn k (sd_dir d)) with Some (File _) => false | _ => true end)
+            (seq 0 (S (length (sd_dir d)))) &&
+    match lookup B t (sd_file d) with Some Dir => false | _ => true end) ds.
+Definition close_hyps (l : list (shard_desc * bool)) (t : fs B) : bool :=
+  apartb (map fst l) && nodupb (map (fun x => sd_file (fst x)) l) && goodb (map fst l) t.
+End CLOSECHK.
 
 (* what a failing write of the close leaves in the file: the content before
    that write (the writes are sequential; only the last one seeks back) *)
